@@ -55,6 +55,7 @@ THEOREMS = [
     "Lena.C13.exported_wf",
     "Lena.C13.ctxAt_child",
     "Lena.C13.foldL_leaves",
+    "Lena.C13.run_values_independent",
 ]
 CASE_TIMEOUT = 20
 TRUSTED = [
@@ -918,6 +919,11 @@ def _renders_dict(tree, flow=None):
             _dict_paths(c, "", rt)
         rt.discard("")
         rt.add("output")
+        for nd in preorder(tree):
+            if nd["k"] == "mut":          # a run-time mutator creates the dictionaries above its key
+                parts = nd["key"].split(".")
+                for i in range(1, len(parts)):
+                    rt.add(".".join(parts[:i]))
         if mkf_fields & rt:
             return True
         try:
